@@ -212,6 +212,47 @@ def C18(tier, seed):
         stubs=["KDTree", "skimage.measure.regionprops", "_compute_ious", "tqdm"])
 
 
+def C17(tier, seed):
+    from harness import names
+    from .core import Run
+
+    q = tier == "quick"
+    n_cases, bad = names.validate_instrumentation(seed)
+    if bad:
+        print(f"INCONCLUSIVE property=C17: AST pass changes behaviour on {len(bad)} of {n_cases} concrete inputs, "
+              f"first: {bad[0]}")
+        return 3
+    CSV = ["time", "id", "parent_id"]
+    runs = []
+    LP = 2 if q else 3
+    for name, cfg in [("node:req=time:ndim=3", dict(L=LP)), ("node:req=csv:ndim=4", dict(L=2, required=CSV, ndim=4)),
+                      ("edge", dict(L=LP, edge=True))] + ([] if q else [("node:req=csv:ndim=3", dict(L=3, required=CSV))]):
+        runs.append(Run(f"pipeline:{name}:L={cfg['L']}", names.pipeline_harness, cfg, names.replay, ("returned",),
+                        f"{cfg['L']} distinct source columns, each ANY string (abstract universe: every constant the "
+                        f"pipeline compares with + fresh names of any length), every behaviour of the fuzzy matcher"))
+    LH = 3 if q else 4
+    for h in ("exact", "fuzzy", "display_exact", "display_fuzzy", "remaining"):
+        for edge in (False, True):
+            if edge and (h == "remaining" or not q and h == "display_fuzzy"):
+                continue
+            L = LH if not (h == "display_fuzzy" and not q) else 3
+            runs.append(Run(f"helper:{h}:{'edge' if edge else 'node'}:L={L}", names.helper_harness,
+                            dict(helper=h, L=L, edge=edge), names.replay, ("returned",),
+                            f"helper contract on {L} distinct columns (any strings) and an ARBITRARY incoming mapping"))
+    return run_property("C17", tier, runs, explanation=R.EXPL, seed=seed, assumptions=[
+        "strings are abstract: index into {constants the code compares with, their lower-case forms} + L fresh names; "
+        "lower() is a symbolic idempotent map on fresh names",
+        "difflib.get_close_matches is an oracle stub: best candidate by an uninterpreted score in [0,1] with "
+        "score=1 <=> equal, ties by an arbitrary injective order",
+        "dict displays/comprehensions of _name_mapping.py are switched to a symbolic-key dict model by an AST pass "
+        f"over the current source; the pass was validated on {n_cases} concrete inputs against the original module "
+        "in this run",
+        "helper contracts compose to the partition property (DESIGN C17); a contract failure is reported only if a "
+        "concrete column list violates the property in the real, uninstrumented pipeline"],
+        stubs=["difflib.get_close_matches -> symbolic oracle", "dict -> SymDict (AST pass)"],
+        extra=dict(traces_validated_against_impl=n_cases))
+
+
 def replay_file(prop, path):
     from harness import labels, relabel, seg_replay, step_replay
 
@@ -227,6 +268,10 @@ def replay_file(prop, path):
         fn = labels.bytrack_replay
     elif run in ("relabel_segmentation", "handle_segmentation"):
         fn = relabel.replay
+    elif prop == "C17":
+        from harness import names
+
+        fn = names.replay
     elif prop == "C18":
         from harness import candgraph
 
